@@ -27,7 +27,24 @@ LOGGERS = [
     ("OAT0NT1NZ", "(cc)", "A"),      # depth 3, with a negated null filter
     ("T0", "(cr)", "B"),             # the same filter indices over another record type
     ("AT0NT1", "((vc)(cr))", "B"),
+    # --- user-written filters that read the record's TAG (G<k>: passes exactly the records whose tag is TAGTEXT[k];
+    #     H<k>: rejects exactly those, "mute this tag"), alone and under and/or/not with severity filters; towers of
+    #     not_filter of depth 2 and 3 over every leaf kind (depth 0/1 are above).  These loggers instantiate the light shape set.
+    ("H0", "(c)", "A"),              # mute tag "tg"
+    ("G0", "(c)", "A"),              # only tag "tg"
+    ("AT0H0", "(cv)", "A"),          # severity threshold AND not muted
+    ("OT0G0", "(c)", "A"),           # severity threshold OR the tag "tg"
+    ("NG0", "(c)", "A"),             # not over a tag leaf
+    ("NNH0", "(c)", "A"),            # not<not<tag leaf>>
+    ("NNNT0", "(c)", "A"),           # depth 3 over a threshold
+    ("ONNNZAT0NNZ", "(c)", "A"),     # depth 3 and depth 2 over the null filter: or(false, and(T0, true))
+    ("AG1T0", "(c)", "A"),           # only untagged (or empty-tag) statements at or above the threshold
+    ("ANNNG0H1", "(c)", "A"),        # depth 3 over a tag leaf, AND tagged at all: tag neither "tg" nor empty
+    ("AT0G1", "(c)", "B"),           # a record type WITHOUT tag attribute: its tag reads as empty whatever the statement says
 ]
+GRID_LOGGERS = range(12)             # the loggers of the big deterministic grids
+LIGHT_LOGGERS = range(12, len(LOGGERS))
+TAGTEXT = ["tg", ""]                 # the texts the tag filters compare with
 RECS = "AB"
 KINDS = "SNC"            # structural item kinds: std::string, long long, callable
 # C++ shapes of a streamed callable (LogModel.ckind; the model ignores them, the harness instantiates each):
@@ -84,7 +101,12 @@ def _dedup(l):
     return out
 
 
+LIGHT_SHAPES = REDUCED_SHAPES + ["l"]
+
+
 def shapes_for(lg):
+    if lg in LIGHT_LOGGERS:
+        return _dedup(LIGHT_SHAPES)
     if lg in FULL_SHAPE_LOGGERS:
         return _dedup(SHAPES + KIND_SHAPES + PAIR_SHAPES + FAIL_SHAPES + FAIL_SHAPES_FULL)
     return _dedup(REDUCED_SHAPES + KIND_SHAPES + FAIL_SHAPES)
@@ -285,6 +307,8 @@ def parse_f(s, i=0):
         return ("Z",), i + 1
     if c == "T":
         return ("T", int(s[i + 1])), i + 2
+    if c in "GH":
+        return (c, int(s[i + 1])), i + 2
     if c == "N":
         a, j = parse_f(s, i + 1)
         return ("N", a), j
@@ -293,16 +317,20 @@ def parse_f(s, i=0):
     return (c, a, b), k
 
 
-def holds(f, th, sv):
+def holds(f, th, sv, tg=""):
     if f[0] == "Z":
         return True
     if f[0] == "T":
         return th[f[1]] <= sv
+    if f[0] == "G":
+        return tg == TAGTEXT[f[1]]
+    if f[0] == "H":
+        return tg != TAGTEXT[f[1]]
     if f[0] == "N":
-        return not holds(f[1], th, sv)
+        return not holds(f[1], th, sv, tg)
     if f[0] == "A":
-        return holds(f[1], th, sv) and holds(f[2], th, sv)
-    return holds(f[1], th, sv) or holds(f[2], th, sv)
+        return holds(f[1], th, sv, tg) and holds(f[2], th, sv, tg)
+    return holds(f[1], th, sv, tg) or holds(f[2], th, sv, tg)
 
 
 FEXPRS = [parse_f(l[0])[0] for l in LOGGERS]
@@ -368,7 +396,7 @@ def quick_deterministic():
     one fixed setting"""
     n = cell = 0
     for mn in range(6):
-        for lg in range(len(LOGGERS)):
+        for lg in GRID_LOGGERS:
             for pre in threshold_settings(lg):
                 for sv in range(6):
                     cell += 1
@@ -420,6 +448,41 @@ def quick_deterministic():
                             yield case(mn, pre + stmt_ops(form, lg, sv, tag, shape_items(sh))), "stmt-shapes"
 
 
+# tags the tag-filter grid uses: none, the text the filters compare with, empty, a proper prefix and an extension of it, an
+# unrelated one, one that equals it only up to a NUL (string_ref is a C string: the record's tag IS "tg")
+FILTER_TAGS = [None, "tg", "", "t", "tgx", "noisy", "tg\x00x"]
+
+
+def tag_filter_cases():
+    """tag-reading filters and towers of not_filter: every (minimum, light logger, relevant threshold setting, severity, tag of
+    FILTER_TAGS) in the one-expression and the slot form, the local / moved / declaration forms in rotation, callables in every
+    statement (a statement the filter rejects FOR ITS TAG must call nothing and deliver nothing; one it accepts for its tag must
+    deliver once)"""
+    n = 0
+    for mn in range(6):
+        for lg in LIGHT_LOGGERS:
+            shs = [x for x in shapes_for(lg) if "o" in x or "l" in x]
+            for pre in threshold_settings(lg):
+                for sv in range(6):
+                    for tag in FILTER_TAGS:
+                        for form in "on":
+                            n += 1
+                            yield case(mn, pre + stmt_ops(form, lg, sv, tag, shape_items(shs[n % len(shs)]))), "tag-filter-grid"
+                        its = shape_items(shs[(n * 3) % len(shs)])
+                        r = n % 4
+                        if r == 0:
+                            yield case(mn, pre + [op_local(lg, sv, tag, its, "nucd"[(n // 4) % 4])]), "tag-filter-grid"
+                        elif r == 1:
+                            yield case(mn, pre + [op_moved(lg, sv, tag, its)]), "tag-filter-grid"
+                        elif r == 2:
+                            yield case(mn, pre + [op_bound(3, lg, sv, tag, [("C", 9, "g", "o")] + its)]), "tag-filter-grid"
+                        else:
+                            # two named streams with different tags open at once, an untagged statement in between
+                            other = FILTER_TAGS[(n // 4) % len(FILTER_TAGS)]
+                            yield case(mn, pre + [op_open(0, lg, sv, tag), op_open(1, lg, sv, other), op_put(0, ("C", 1, "p", "o")),
+                                                  op_one(lg, sv, None, [("C", 2, "q", "l")]), op_put(1, ("C", 3, "r", "k")), op_close(0), op_close(1)]), "tag-filter-grid"
+
+
 def kind_cases():
     for mn in range(6):
         for lg in range(len(LOGGERS)):
@@ -459,6 +522,8 @@ def rand_tag(rng):
         return ""
     if r < 0.55:
         return "a\x00b"           # string_ref is a C string
+    if r < 0.75:
+        return rng.choice(["tg", "tg", "t", "tgx", "tg\x00"])      # the text the tag filters compare with, and near misses
     return "".join(rng.choice("tgTG:| \xe4") for _ in range(rng.randint(1, 4)))
 
 
@@ -470,7 +535,7 @@ def rand_program(rng, mn=None):
     openv = set()
     for _ in range(rng.randint(1, 12)):
         r = rng.random()
-        lg = rng.randrange(len(LOGGERS))
+        lg = rng.randrange(len(LOGGERS)) if rng.random() < 0.6 else rng.choice(LIGHT_LOGGERS)
         sv = rng.randrange(6) if rng.random() < 0.6 else min(5, max(0, mn + rng.choice([-1, 0, 0, 1])))
         if r < 0.2:
             ops.append(op_set(rng.choice(RECS), rng.randrange(2), rng.randrange(6)))
@@ -587,6 +652,7 @@ class LogCheck(Check):
         yield from kind_cases()
         yield from mid_threshold_cases()
         yield from cross_record_cases()
+        yield from tag_filter_cases()
         if tier == "quick":
             yield from quick_deterministic()
             # every 97th statement of the complete single-statement space (97 is coprime to the inner loop sizes; the grids above
